@@ -317,6 +317,41 @@ def selftest():
     good = res["n_mismatch"] > 0
     print("selftest replay with corrupted expectation -> mismatch reported: %s" % good)
     ok &= good
+    # 3. trace validation (code -> spec): a recorded execution is accepted; the same trace with a corrupted
+    #    snapshot, with one hook's entries removed, or with another file content written is rejected
+    import autotrace, shutil, copy
+    g = run_tlc("CacheAuto", "CacheAuto_gen1.cfg", timeout=600, simulate="num=10", depth=40, seed=3, workers=2, deadlock=True)
+    rows = dedupe_auto(g.rows)[:6]
+    f = scratch_file("selftest-auto.ndjson")
+    tdir = vlib.mkscratch("selftest-traces")
+    write_rows(rows, f)
+    try:
+        run_harness("replay-auto", ["-cases", f, "-trace-dir", tdir, "-pacings", "1"], timeout=600)
+        traces = [json.load(open(os.path.join(tdir, x)))["events"] for x in sorted(os.listdir(tdir))]
+    finally:
+        os.unlink(f)
+        shutil.rmtree(tdir, ignore_errors=True)
+    snap = lambda e: e["ev"] in ("op", "handled") and any(v for v in e["st"]["idx"].values())
+    t = next((t for t in traces if any(snap(e) for e in t)), None)
+    if t is None:
+        print("selftest trace validation: no recorded trace with a non-empty snapshot")
+        return 1
+    good = autotrace.validate(t, "selftest")[0]
+    print("selftest trace validation: recorded execution accepted: %s" % good)
+    ok &= good
+    k = max(i for i, e in enumerate(t) if snap(e))
+    c1 = copy.deepcopy(t)
+    d0 = next(d for d, v in c1[k]["st"]["idx"].items() if v)
+    c1[k]["st"]["idx"][d0] = 3 - c1[k]["st"]["idx"][d0]
+    c2 = [e for e in t if not (e["ev"] == "fs" and e["a"] in ("createwrite", "rewrite", "movein", "renamewithin"))]
+    c3 = copy.deepcopy(t)
+    for e in c3:
+        if e["ev"] == "fs" and e["c"]:
+            e["c"] = 3 - e["c"]
+    for name, c in (("corrupted snapshot", c1), ("file-system entries removed", c2), ("other content written", c3)):
+        good = not autotrace.validate(c, "selftest")[0]
+        print("selftest trace validation: %s -> rejected: %s" % (name, good))
+        ok &= good
     return 0 if ok else 1
 
 
@@ -579,7 +614,7 @@ def trace_to_row(trace_lines, init_dirs, init_exists):
     """Turns the action labels of a TLC counter-example into a behaviour row for replay-auto."""
     hist = [{"a": "init", "d": "", "n": "", "c": 0, "w": 1, "nd": init_dirs, "na": True, "ex": init_exists}]
     names = {"CreateWrite": "createwrite", "Rewrite": "rewrite", "RenameWithin": "renamewithin", "MoveIn": "movein", "MoveOut": "moveout",
-             "RemoveFile": "removefile", "Rmdir": "rmdir", "Mkdir": "mkdir", "RenameDirAway": "renamediraway", "ReaderFetch": "fetch",
+             "RemoveFile": "removefile", "Rmdir": "rmdir", "Mkdir": "mkdir", "RenameDirAway": "renamediraway", "ReaderRead": "read", "ReaderFetch": "fetch",
              "GorRecv": "recv", "GorExit": "exit", "GorHandle": "handle", "Query": "query", "Configure": "configure", "Shortage": "shortage"}
     for l in trace_lines:
         m = _LABEL.match(l)
@@ -596,7 +631,7 @@ def trace_to_row(trace_lines, init_dirs, init_exists):
             e["d"], e["n"] = args[0], args[1]
         elif a in ("renamewithin", "moveout", "rmdir", "mkdir", "renamediraway"):
             e["d"] = args[0]
-        elif a in ("fetch", "recv", "exit", "handle"):
+        elif a in ("read", "fetch", "recv", "exit", "handle"):
             e["w"] = int(args[0])
         elif a == "configure":
             mm = _re.match(r"\{(.*)\},\s*(TRUE|FALSE)", m.group(2))
@@ -662,18 +697,63 @@ def auto_family(prop, tier, seed, mc_cfgs, gen_runs, directed, extra_rule):
     if not rows:
         raise ToolFailure("vacuous: no behaviour generated")
     allrows = drows + rows
+    import autotrace, shutil
     f = scratch_file("auto.ndjson")
+    tdir = vlib.mkscratch("autotrace")
     write_rows(allrows, f)
+    trace_stats = {"traces": 0, "accepted": 0, "events": 0, "states": 0}
+    trace_mism = []
     try:
-        res, err = run_harness("replay-auto", ["-cases", f, "-seed", seed], timeout=3000)
+        res, err = run_harness("replay-auto", ["-cases", f, "-seed", seed, "-trace-dir", tdir], timeout=3000)
+        tool_errors(res["mismatches"])
+        # binding B (code -> spec): the recorded executions (pacings 0 and 1) validated against CacheAutoTrace
+        files = sorted(os.listdir(tdir))
+        if tier == "quick" and len(files) > 90:
+            import random
+            rr = random.Random(seed)
+            directed_first = [x for x in files if int(x.split("-")[1]) < len(drows)]
+            rest = [x for x in files if x not in directed_first]
+            rr.shuffle(rest)
+            files = directed_first + rest[:90 - len(directed_first)]
+
+        def one(fn):
+            t = json.load(open(os.path.join(tdir, fn)))
+            ok, r = autotrace.validate(t["events"], fn)
+            return fn, t, ok, r
+        with cf.ThreadPoolExecutor(max_workers=8) as ex:
+            outs = list(ex.map(one, files))
+        for fn, t, ok, r in outs:
+            trace_stats["traces"] += 1
+            trace_stats["events"] += len(t["events"])
+            trace_stats["states"] += r.distinct
+            if ok:
+                trace_stats["accepted"] += 1
+                continue
+            # a rejected trace counts only if a second, independent recording of the same behaviour is rejected too
+            d2 = vlib.mkscratch("autotrace2")
+            try:
+                run_harness("replay-auto", ["-cases", f, "-seed", seed + 1, "-only", t["case"], "-pacings", t["pacing"], "-trace-dir", d2], timeout=600)
+                again = [json.load(open(os.path.join(d2, x))) for x in sorted(os.listdir(d2))]
+            finally:
+                shutil.rmtree(d2, ignore_errors=True)
+            if again and not autotrace.validate(again[0]["events"], "again")[0]:
+                k = autotrace.longest_prefix(t["events"], "bisect")
+                nxt = t["events"][k] if k < len(t["events"]) else None
+                trace_mism.append({"what": "recorded-execution-not-a-behaviour-of-the-specification", "props": [prop], "case": t["case"], "step": t["pacing"],
+                                   "want": "every hook event and state snapshot explained by an action of spec/CacheAuto.tla",
+                                   "got": {"events_explained": k, "of": len(t["events"]), "first_unexplained_event": nxt},
+                                   "note": json.dumps(t["events"][max(0, k - 6):k + 1])[:3000], "row": allrows[t["case"]]})
+            else:
+                trace_stats["rejected_once_accepted_on_rerecording"] = trace_stats.get("rejected_once_accepted_on_rerecording", 0) + 1
     finally:
         os.unlink(f)
-    tool_errors(res["mismatches"])
-    mine = tagged(res["mismatches"], prop)
+        shutil.rmtree(tdir, ignore_errors=True)
+    mine = tagged(res["mismatches"], prop) + trace_mism
     cov = {"states": sum(r.distinct for r in mcs), "transitions": sum(r.generated for r in mcs),
-           "traces_validated_against_impl": res["evaluations"], "evaluations": res["evaluations"],
+           "traces_validated_against_impl": res["evaluations"] + trace_stats["accepted"], "evaluations": res["evaluations"],
            "distinct_nontrivial": res["distinct_nontrivial"], "executions": res["steps"],
            "directed_schedules": found, "transient_failures": res.get("extra", {}).get("transient_failures", 0),
+           "trace_validation": trace_stats,
            "tlc_runs": [{"cfg": c, "distinct_states": r.distinct, "generated": r.generated, "depth": r.depth, "wall_s": round(r.wall, 1),
                          "properties": "invariants + liveness under weak fairness"} for r, c in zip(mcs, mc_cfgs)],
            "rule": "TLC checks the CacheAuto state machine (file system, inotify queues, fsnotify reader, watcher goroutines with captured arguments, "
@@ -681,7 +761,11 @@ def auto_family(prop, tier, seed, mc_cfgs, gen_runs, directed, extra_rule):
                    "de-duplicated by their controllable projection) and the counter-example schedules TLC finds when each repair is switched off in "
                    "the model are executed on a real auto-refresh cache over real inotify at three pacings (free-running; the recorded schedule "
                    "enforced through the watch.prelock gate; watcher held until the history ends), then the query API is polled until it equals a "
-                   "fresh cache on the final directories (10 s; a violation needs 3 failing fresh executions). " + extra_rule,
+                   "fresh cache on the final directories (10 s; a violation needs 3 failing fresh executions). The free-running and the "
+                   "schedule-following execution of every behaviour are also recorded through the hooks (file-system operations, events reaching "
+                   "the watcher goroutine, state snapshots at the start of every critical section and at the end of the watcher's and "
+                   "Configure's) and each trace is validated by TLC against spec/CacheAutoTrace.tla (accepted iff some behaviour of the model, "
+                   "with silent delivery steps, consumes it; a rejection counts when a second recording is rejected too). " + extra_rule,
            "samples": [allrows[0], allrows[len(allrows) // 2]], "exhaustive": False,
            "checker_cmd": "tlc CacheAuto (" + ", ".join(mc_cfgs) + ") ; tlc -simulate (generation) ; harness replay-auto"}
     return {"level": "model_checking", "coverage": cov, "mismatches": mine, "replay_with": "replay-auto",
